@@ -150,7 +150,42 @@ def _is_param(e, name, fn_node, defs) -> bool:
     x = ex(e, fn_node, defs)
     if isinstance(x, ast.Call) and isinstance(x.func, ast.Name) and x.func.id == "bool" and len(x.args) == 1 and not x.keywords:
         x = x.args[0]
-    return isinstance(x, ast.Name) and x.id == name
+    return isinstance(x, ast.Name) and x.id == name and not _replaced(fn_node, name)
+
+
+CONVERSIONS = {"asarray", "asanyarray", "array", "ascontiguousarray", "atleast_2d", "copy", "bool", "float", "asfarray"}
+
+
+def _replaced(fn_node, name) -> bool:
+    """The function re-binds its parameter `name` to something that is not the same value in another container (a projection,
+    a default decided by its values, ...): what it hands on under that name is then not what the caller passed.  Re-binding
+    to a plain conversion of itself (np.asarray(extent), bool(inverse), extent.copy()) keeps the value."""
+    for n in ast.walk(fn_node):
+        vals = []
+        if isinstance(n, (ast.Assign, ast.AnnAssign)) and n.value is not None:
+            tgs = n.targets if isinstance(n, ast.Assign) else [n.target]
+            if any(isinstance(x, ast.Name) and x.id == name for t in tgs for x in ast.walk(t) if isinstance(x.ctx if hasattr(x, "ctx") else None, ast.Store)):
+                vals.append(n.value if all(isinstance(t, ast.Name) for t in tgs) else None)
+        elif isinstance(n, ast.AugAssign) and isinstance(n.target, ast.Name) and n.target.id == name:
+            vals.append(None)
+        elif isinstance(n, ast.NamedExpr) and n.target.id == name:
+            vals.append(n.value)
+        elif isinstance(n, (ast.For, ast.comprehension)) and any(isinstance(x, ast.Name) and x.id == name for x in ast.walk(n.target)):
+            vals.append(None)
+        for v in vals:
+            if v is None:
+                return True
+            arg = None
+            if isinstance(v, ast.Call) and call_name(v) in CONVERSIONS:
+                if isinstance(v.func, ast.Attribute) and isinstance(v.func.value, ast.Name) and v.func.value.id == name:
+                    arg = v.func.value  # extent.copy()
+                elif v.args:
+                    arg = v.args[0]
+            elif isinstance(v, ast.IfExp):
+                return True
+            if not (isinstance(arg, ast.Name) and arg.id == name):
+                return True
+    return False
 
 
 def _forwards_flag(e, name, pf, at) -> bool:
@@ -1181,13 +1216,39 @@ def rule_span(ctx) -> RuleResult:
             positional = len(e.args) - (1 if e.args and red and red[1] is e.args[0] else 0)  # arguments besides the reduced array
             return bool(red) and (any(k.arg == "axis" for k in e.keywords) or positional >= 1)
 
+        def population(e):
+            """e counts the flags of a bare projection (how many columns / rows hold a selected cell)"""
+            cnt = is_reducer(e, COUNTERS) if isinstance(e, ast.Call) else None
+            return bool(cnt) and bare_projection(cnt[1])
+
+        # locals whose value is built from such a count: `run[first : first + count] = True`, `stop = first + count`, ...
+        sized: set = set()
+        grown = True
+        while grown:
+            grown = False
+            for n in ast.walk(node):
+                if not (isinstance(n, (ast.Assign, ast.AugAssign, ast.AnnAssign)) and getattr(n, "value", None) is not None):
+                    continue
+                for t in (n.targets if isinstance(n, ast.Assign) else [n.target]):
+                    b, parts = t, [n.value]
+                    while isinstance(b, ast.Subscript):
+                        parts.append(b.slice)  # where a store lands is part of what the array becomes
+                        b = b.value
+                    if isinstance(b, ast.Name) and b.id not in sized and any(
+                            population(x) or (isinstance(x, ast.Name) and x.id in sized) for part in parts for x in ast.walk(part)):
+                        sized.add(b.id)
+                        grown = True
+
         seen = set()
         for key, v in _count_entries(node):
             x = ex(v, node, defs)
             cnt = is_reducer(x, COUNTERS) if isinstance(x, ast.Call) else None
             if not cnt:
-                continue
-            bad = bare_projection(cnt[1])
+                if population(x) or any(isinstance(y, ast.Name) and y.id in sized for y in ast.walk(x)) or any(population(y) for y in ast.walk(x)):
+                    cnt = (None, x)
+                else:
+                    continue
+            bad = bare_projection(cnt[1]) or any(population(y) or (isinstance(y, ast.Name) and y.id in sized) for y in ast.walk(cnt[1]))
             if (key, bad) in seen:
                 continue
             seen.add((key, bad))
@@ -1198,6 +1259,115 @@ def rule_span(ctx) -> RuleResult:
                          f"{fn.module.relpath}:{v.lineno}",
                          "when the selected cells leave a column / row between them empty (thin box across a rotated grid) the sub-grid is smaller "
                          "than the covering one and the kept values sit at the coordinates of other cells")
+    return res
+
+
+# --------------------------------------------------------------------------------------------------------------------------
+# C13.COORDS — "selected precisely when their coordinates lie inside the closed box": what is handed to the shared predicate is
+# the object's coordinates themselves.  Every consumer of a selection (the bounding-box guard, the data masks of the children,
+# the clip of a 2-D grid) reads the same attribute; a copy that was rounded, shifted, scaled or re-ordered on the way to the
+# predicate decides boundary elements differently from them, and no longer row by row.
+VALUE_CHANGING = {"round", "round_", "around", "rint", "floor", "ceil", "trunc", "fix", "astype", "clip", "abs", "absolute", "fabs",
+                  "nan_to_num", "float16", "float32", "int32", "int64", "int_", "sign", "mod", "remainder", "floor_divide", "divide",
+                  "true_divide", "multiply", "add", "subtract", "power", "sort", "sorted", "unique", "flip", "flipud", "roll", "permutation"}
+ASSEMBLING = {"c_", "r_"}  # np.c_[[x, y, z]]: the index expression holds the values
+SHAPE_ONLY = {"reshape", "transpose", "swapaxes", "repeat", "tile", "squeeze", "expand_dims"}  # further arguments are shapes / axes
+
+
+def _value_changes(fn_node, root):
+    """Nodes on the value flow into `root` (followed back through local bindings) that change coordinate values: arithmetic,
+    rounding / casting / clipping, re-ordering.  Index expressions, shapes and axes are not values."""
+    from ._c13_sem import _bindings
+
+    binds: dict = {}
+    for names, src in _bindings(fn_node):
+        for nm in names:
+            binds.setdefault(nm, []).append(src)
+    out, seen = [], set()
+
+    def visit(e):
+        if isinstance(e, ast.BinOp):
+            if isinstance(e.op, (ast.Add, ast.Sub, ast.Mult, ast.Div, ast.FloorDiv, ast.Mod, ast.Pow, ast.MatMult)):
+                out.append(e)
+            visit(e.left)
+            visit(e.right)
+        elif isinstance(e, ast.UnaryOp):
+            if isinstance(e.op, ast.USub):
+                out.append(e)
+            visit(e.operand)
+        elif isinstance(e, ast.Subscript):
+            visit(e.value)
+            if isinstance(e.value, ast.Attribute) and e.value.attr in ASSEMBLING:
+                visit(e.slice)
+        elif isinstance(e, ast.Call):
+            nm = call_name(e)
+            if nm in VALUE_CHANGING:
+                out.append(e)
+            if isinstance(e.func, ast.Attribute) and not (isinstance(e.func.value, ast.Name) and e.func.value.id in ("np", "numpy")):
+                visit(e.func.value)  # method of the array: <coordinates>.reshape(..)
+                if nm in SHAPE_ONLY:
+                    return
+            for a in (e.args[:1] if nm in SHAPE_ONLY else e.args):
+                visit(a)
+        elif isinstance(e, (ast.List, ast.Tuple)):
+            for x in e.elts:
+                visit(x)
+        elif isinstance(e, ast.Attribute):
+            visit(e.value)
+        elif isinstance(e, ast.Starred):
+            visit(e.value)
+        elif isinstance(e, ast.IfExp):
+            visit(e.body)
+            visit(e.orelse)
+        elif isinstance(e, ast.Name) and e.id in binds and e.id not in seen:
+            seen.add(e.id)
+            for v in binds[e.id]:
+                visit(v)
+
+    visit(root)
+    return out
+
+
+def rule_coords(ctx) -> RuleResult:
+    res = RuleResult(
+        "C13.COORDS",
+        "C13",
+        "in every function that takes `extent` and `inverse`, the coordinates handed to the shared predicate reach it unchanged from "
+        "where they are read: assembled, transposed or re-shaped, but not rounded, cast, clipped, shifted, scaled or re-ordered",
+        floor=5,
+    )
+    p = ctx.p
+    pred = _predicate(p)
+    if pred is None:
+        raise AnalysisError("anchor shared.utils.mask_by_extent not found")
+    for fn0 in p.all_functions():
+        params = fn0.params + [a.arg for a in fn0.node.args.kwonlyargs]
+        if "inverse" not in params or "extent" not in params:
+            continue
+        if fn0.cls is not None and fn0.name == "mask_by_extent":
+            views = [v for v, _Ks in _views_by_receiver(ctx, fn0.cls, fn0.name, fn0)]  # hooks resolved on the classes that use it
+        else:
+            views = [_view(ctx, fn0)]
+        seen = set()
+        for fn in views:
+            for c in ast.walk(fn.node):
+                if not _is_call_to(p, fn.module, c, pred):
+                    continue
+                loc = _argument(c, "locations", 0)
+                if loc is None:
+                    continue
+                changes = _value_changes(fn.node, loc)
+                site = (unparse(c), bool(changes))
+                if site in seen:
+                    continue
+                seen.add(site)
+                res.inst(f"{fn.qualname}:{c.lineno} coordinates handed to the predicate" + (" pass through a value-changing operation" if changes else " are the ones read"),
+                         nontrivial=True, ok=not changes)
+                if changes:
+                    res.find(fn.cls.name if fn.cls else fn.module.short, fn.name, "coordinates handed to the predicate are a transform of the object's coordinates",
+                             f"{fn.module.relpath}:{changes[0].lineno}",
+                             "the selection is decided on rounded / shifted / re-ordered coordinates while the bounding-box guard, the data masks and the "
+                             "2-D clip read the attribute itself: elements on a face of the box are selected by one and rejected by the other")
     return res
 
 
@@ -1251,7 +1421,11 @@ def rule_once(ctx) -> RuleResult:
                 return None
             if _is_call_to(p, fn.module, c, pred):
                 loc = _argument(c, "locations", 0)
-                return loc is not None and _self_rooted(loc, self_name)
+                if loc is None:
+                    return False
+                # the source object's own coordinates, possibly wrapped (np.asarray(self.centroids)): nothing else is read
+                names = {x.id for x in ast.walk(loc) if isinstance(x, ast.Name)}
+                return _self_rooted(loc, self_name) or (self_name in names and names <= {self_name, "np", "numpy"})
             f = c.func
             if isinstance(f, ast.Attribute) and f.attr == "mask_by_extent":
                 if isinstance(f.value, ast.Call) and call_name(f.value) == "super":
@@ -1336,4 +1510,4 @@ def rule_once(ctx) -> RuleResult:
     return res
 
 
-RULES = [rule_deleg, rule_closed, rule_fwd, rule_orphan, rule_once, rule_bbox, rule_agree, rule_span]
+RULES = [rule_deleg, rule_closed, rule_fwd, rule_orphan, rule_once, rule_bbox, rule_agree, rule_span, rule_coords]
